@@ -211,6 +211,28 @@ impl C12 {
             let at = r.usize(p.rules.len() + 1);
             p.rules.insert(at, marker_rule(tag));
         }
+        // many distinct regular expressions (more than any fixed-size cache of compiled
+        // patterns would hold), half of which match: a pattern answered by another one's
+        // compiled form flips a single-clause rule
+        if r.chance(1, 6) {
+            for (i, (d, _)) in wl.docs.iter_mut().enumerate() {
+                if let J::Map(kv) = d {
+                    kv.push(("rx_subject".into(), J::Str(format!("subject{}", i))));
+                }
+            }
+            let per_file = *r.pick(&[12usize, 24, 48, 90]);
+            for (t, p) in wl.progs.iter_mut().enumerate() {
+                for i in 0..per_file {
+                    let re = if (i + t) % 2 == 0 { format!("^subject[0-9]+(x{}y{})?$", t, i) } else { format!("^nomatch_{}_{}$", t, i) };
+                    p.rules.push(crate::rules::Rule {
+                        name: format!("rx_{}_{}", t, i),
+                        when: vec![],
+                        body: crate::rules::Body { lets: vec![], lines: vec![crate::rules::Line { alts: vec![crate::rules::Clause::Cmp(crate::rules::Cmp { not: false, q: crate::rules::Query { some: false, parts: vec![crate::rules::Part::Key("rx_subject".into())] }, op: crate::rules::Op::Eq, opnot: false, rhs: Some(crate::rules::Rhs::Regex(re)), msg: None })] }] },
+                    });
+                }
+            }
+            rep.count("gen.many_distinct_regexes", 1);
+        }
         // two data files with byte-identical content (a copied template): still two pairs
         if wl.docs.len() > 1 && r.chance(1, 5) {
             wl.docs[1] = wl.docs[0].clone();
